@@ -814,6 +814,25 @@ void KMeansppCenters(matrix *m,
     for(i = 0; i < D->size; i++){
       D_square->data[i] = square(D->data[i]);
     }
+
+    y = 0.f;
+    for(i = 0; i < D_square->size; i++){
+      y += D_square->data[i];
+    }
+    if(y == 0.f || _isnan_(y)){
+      /* Every remaining object coincides with a centre already chosen: the
+       * distance weighted draw below can never succeed. Take the first object
+       * not selected yet (if any) and go on.
+       */
+      for(i = 0; i < m->row; i++){
+        if(UIVectorHasValue(selections, i) == 1){
+          UIVectorAppend(selections, i);
+          break;
+        }
+      }
+      q--;
+      continue;
+    }
     /* Step 4 */
     A = 0.f;
     B = 0.f;
